@@ -162,9 +162,20 @@ class ArgVal:
             if s.variant_ == 1: s._fields = [ArgVal(s.name + '.some', m.group(1).strip(), s)]; s.shape = 'some'
             else: s._fields = []; s.shape = 'none'
         return s.variant_
+    def elements(s, ctx):
+        """elements of a Vec / slice typed placeholder once the code iterates over it: every length 0..2 is explored"""
+        t = s._bare()
+        m = re.match(r'^(?:std::vec::)?Vec<(.*)>$', t) or re.match(r'^\[(.*)\]$', t)
+        if not m: raise Unsupported(f'iteration over the opaque argument {s!r}')
+        if s.shape is None:
+            n = ctx.fresh_int('len_' + re.sub(r'\W', '_', s.name), 0, 3)
+            k = ctx.choose([n == 0, n == 1, n == 2])
+            s._fields = [ArgVal(f'{s.name}[{i}]', m.group(1).strip(), s) for i in range(k)]; s.shape = 'vec'
+        if s.shape != 'vec': raise Unsupported(f'iteration over {s!r} after it was unfolded as {s.shape}')
+        return s._fields
     def leaves(s):
         """the placeholders a value of this argument consists of, given what the executed code unfolded"""
-        if s.shape in ('tuple', 'some'): return [l for c in s._fields for l in c.leaves()]
+        if s.shape in ('tuple', 'some', 'vec'): return [l for c in s._fields for l in c.leaves()]
         if s.shape == 'none': return []
         return [s]
 
